@@ -45,6 +45,9 @@ def bgd_cases_from_export(exported, quick):
     for i, e in enumerate(exported):
         d = e["decls"]
         cases.append({"id": "bgd-%05d" % i, "family": "bgd-export", "S": bgd_shader(d), "opts": opts()})
+        if i % 4 == 3:
+            # validator on, but no entry point uses the variables: the validator itself does not look at unused variables
+            cases.append({"id": "bgd-%05d-vu" % i, "family": "bgd-export-validated-unused", "S": bgd_shader(d), "opts": opts(validate="all")})
         if i % 4 == 2:
             cases.append({"id": "bgd-%05d-p" % i, "family": "bgd-export-interleaved", "S": interleave_plain_globals(bgd_shader(d), i // 4), "opts": opts()})
         # every 4th sequence also with all variables used and the validator on (its own error may pre-empt)
@@ -111,7 +114,7 @@ GLOBAL_NAME_STYLES = [lambda n: "sim" + n.capitalize(), lambda n: n.capitalize()
                       lambda n: n + "_", lambda n: "HTTP" + n.capitalize() + "Buf"]
 
 
-ALIAS_NAMES = ["Color", "Weights", "Real", "Mat", "Block4", "index_t"]
+ALIAS_NAMES = ["Color", "Weights", "Real", "Mat", "Block4", "index_t", "ColorTexture", "Smp"]
 
 
 def add_aliases(S, rng, k=2):
@@ -129,6 +132,8 @@ def add_aliases(S, rng, k=2):
     for g in S["globals"]:
         if g["ty"]["k"] not in ("tex", "sampler"):
             collect(g["ty"])
+        elif g["ty"] not in seen and rng.random() < 0.5:
+            seen.append(g["ty"])          # `alias ColorTexture = texture_2d<f32>;` is legal as well
     seen = [t for t in seen if not (t["k"] == "scalar" and t["s"] == "bool")]
     taken = {d["name"] for d in S["structs"]} | {g["name"] for g in S["globals"]} | {f["name"] for f in S["functions"]} | {e["name"] for e in S["entries"]}
     names = [n for n in ALIAS_NAMES if n not in taken]
@@ -375,6 +380,26 @@ def chain(depth, ret, stages=("compute",), ctx=None, pure=False):
     return S
 
 
+def deep_use_cases(push):
+    """a resource (or the push constant) that only the innermost helper of a long call chain touches: its visibility must still be the
+    stages of the entry points at the top, however long the chain (33, 40, 64, 100 helpers) and whether or not the helpers return values;
+    a second entry point of another stage stops half way down"""
+    out = []
+    for d in (8, 31, 32, 33, 34, 40, 64, 100):
+        for ret in (False, True):
+            S = chain(d, ret, stages=("vertex", "fragment"))
+            # the fragment entry enters the chain half way down, a compute entry does not use the chain at all
+            S["entries"][1]["body"] = [{"k": "call", "f": "h%d" % (d // 2), "expr": ret}]
+            S["entries"].append({"name": "e2", "stage": "compute", "params": [], "body": [], "wg": ["1"]})
+            if push:
+                S["globals"] = [{"name": "pc", "space": "push", "ty": {"k": "vec", "n": 4, "s": "f32"}}]
+                S["functions"][-1]["body"] = [{"k": "access", "g": "pc", "how": "load"}]
+            else:
+                S["functions"][-1]["body"] = [{"k": "access", "g": "buf", "how": "load"}]
+            out.append({"id": "deep-%s-d%d-%s" % ("push" if push else "res", d, "ret" if ret else "void"), "family": "deep-call-chain", "S": S, "opts": opts()})
+    return out
+
+
 def nested(ctx, depth, ret=False):
     """one function whose body nests `ctx` blocks `depth` deep around a call"""
     S = _base()
@@ -480,6 +505,12 @@ def growth_cases(quick):
         cases.append(("tower3-l%d" % l, struct_tower(min(l, 14), fan=3)))
     for n in [8, 64, 200]:
         cases.append(("wide-b%d" % n, wide(n, 100)))
+    # many unrelated types declared before the tower (type handles beyond any small fixed-size set)
+    for pad, l in [(70, 12), (70, 20), (130, 24), (300, 26)]:
+        T = struct_tower(l)
+        T["structs"] = [{"name": "Pad%d" % i, "members": [{"name": "p", "ty": {"k": "array", "n": i + 2, "e": {"k": "scalar", "s": "f32"}}}]} for i in range(pad)] + T["structs"]
+        T["globals"].append({"name": "pads", "space": "storage_r", "group": "0", "binding": "7", "ty": {"k": "struct", "name": "Pad0"}})
+        cases.append(("tower-padded%d-l%d" % (pad, l), T))
     return [{"id": "grow-" + n, "family": "growth", "S": S, "opts": opts()} for n, S in cases]
 
 
@@ -731,6 +762,10 @@ def role_shader0(rng, big_arrays=True, entry_names=False):
     if r < 0.4:
         S["structs"].append(io_struct(rng, "FragmentOutput", [{"k": "vec", "n": 4, "s": "f32"}], rng.randint(1, 3), [b for b in ("frag_depth", "sample_mask") if rng.random() < 0.3], sparse=rng.random() < 0.3, prefix="c"))
         fres = {"k": "struct", "ty": "FragmentOutput"}
+        if rng.random() < 0.15:
+            # dual-source blending: two outputs at location 0, the second one marked as the second blend source
+            S["structs"][-1]["members"] = [{"name": "c_src0", "ty": {"k": "vec", "n": 4, "s": "f32"}, "io": {"k": "loc", "n": 0}},
+                                           {"name": "c_src1", "ty": {"k": "vec", "n": 4, "s": "f32"}, "io": {"k": "loc", "n": 0, "blend": True}}]
     elif r < 0.8:
         fres = {"k": "loc", "n": rng.choice([0, 0, 0, 1, 3]), "ty": {"k": "vec", "n": 4, "s": "f32"}}
     # host side
@@ -1120,6 +1155,9 @@ def const_table(rng):
     add(None, "mat3x3<f32>()", None)
     add(None, "array<u32, 2>()", None)
     add(None, "vec3<f32>(1.0)", None)
+    add(None, "vec4<f32>(vec2<f32>(1.0, 2.0), 3.0, 4.0)", None)
+    add(None, "vec3<f32>(vec2<f32>(1.0, 2.0), 3.0)", None)
+    add(None, "array<vec2<f32>, 2>(vec2<f32>(1.0, 2.0), vec2<f32>(3.0, 4.0))", None)
     add(None, "vec2<bool>(true, false)", None)
     return t
 
@@ -1198,6 +1236,17 @@ def override_shaders(rng, n):
         if not any(p_.get("ty") == "VIn" for e in S["entries"] for p_ in e["params"]):
             S["structs"] = []
         shaders.append(S)
+    # declared types spelled through aliases; entry points that read some of the overrides (only some stages, or none)
+    for k, S in enumerate(shaders):
+        if k % 4 == 1:
+            tys_used = sorted({o["ty"] for o in S["overrides"]})
+            S["aliases"] = [{"name": {"bool": "Flag", "i32": "Int", "u32": "Count", "f32": "Real"}[t], "ty": {"k": "scalar", "s": t}} for t in tys_used[:2]]
+        if k % 3 == 0 and S["entries"]:
+            stages = sorted({e["stage"] for e in S["entries"]})
+            reader = stages[k % len(stages)]
+            for e in S["entries"]:
+                if e["stage"] == reader:
+                    e["body"] = [{"k": "ovr", "o": o["name"]} for o in S["overrides"]]
     # module constants next to the overrides, one of them named like a local of constants()
     for nm in ("value", "scale_k"):
         shaders.append({"structs": [], "globals": [], "consts": [{"name": nm, "decl": "u32", "expr": "3u", "expect": "u32:3"}],
